@@ -97,6 +97,7 @@ def run(rep, tier, seed):
     if {r["kind"] for r in res.records} != {"eig2c", "eig2cc"}:
         raise Machinery("MC_CFactor: complex eigenproblems not generated")
     recs += res.records
+    stale_out = {}
     groups = {}
     for r in recs:
         groups.setdefault((r["kind"], r["D"], r["zo"]), []).append(r)
@@ -138,6 +139,13 @@ def run(rep, tier, seed):
                         sg = numpy.sign(numpy.diag(Rd[0, p])[:k]) * numpy.sign(numpy.diag(Rs[0, p])[:k])
                         resid(rep, sig, det, "Q(t) equals the constructed series (up to signs)", Qd[:, p][:, :, :k], Qs[:, p][:, :, :k] * sg, 1.0)
                         resid(rep, sig, det, "R(t) equals the constructed series (up to signs)", Rd[:, p][:, :k, :], Rs[:, p][:, :k, :] * sg[:, None], sc)
+                    # result buffers of an earlier call handed back through out=: their old content must not matter
+                    stale = stale_out.get((kind, D, P))
+                    if stale is not None:
+                        Qo, Ro = (UTPM.qr_full(Au, out=stale) if full else UTPM.qr(Au, out=stale))
+                        resid(rep, sig, det, "out= buffers holding an earlier result: Q differs from a fresh call", Qo.data, Qd, 1.0)
+                        resid(rep, sig, det, "out= buffers holding an earlier result: R differs from a fresh call", Ro.data, Rd, sc)
+                    stale_out[(kind, D, P)] = (UTPM(Qd.copy() + 0.5), UTPM(Rd.copy() * 3.0 + 1.0))
                     # the same matrix scaled by 1e-9 is still of full column rank: Q is unchanged, R scales
                     if not full:
                         Q2, R2 = algopy.qr(UTPM(A * 1e-9))
@@ -154,6 +162,10 @@ def run(rep, tier, seed):
                     if abs(numpy.triu(Ld, 1)).max() > TOL * sc:
                         rep.violation(sig + ": L lower triangular", det)
                     resid(rep, sig, det, "L(t) equals the constructed series", Ld, Ls, sc)
+                    stale = stale_out.get((kind, D, P))
+                    if stale is not None:
+                        resid(rep, sig, det, "out= buffer holding an earlier result: L differs from a fresh call", UTPM.cholesky(Au, out=stale).data, Ld, sc)
+                    stale_out[(kind, D, P)] = UTPM(Ld.copy() * 2.0 + 1.0)
                 elif kind == "lu3":
                     Ps, Ls, Us = get("P"), get("L"), get("U")
                     W, L, U = algopy.lu(Au)
